@@ -39,7 +39,10 @@ def replay(spec):
     if sp.get("delay"):
         fam, dre, dpr = sp["delay"]
         rx = rx + (fam, list(dre), list(dpr), {"fixed": {"delay": 0.5}, "gaussian": {"mean": 2.0, "std": 0.25}, "gamma": {"k": 3.0, "theta": 0.5}}[fam])
-    M = Model(species=SPECIES, reactions=[rx], parameters=params,
+    ri, rxs = 0, [rx]
+    if sp.get("shared_first") is not None:
+        rxs, ri = [(list(sp["shared_first"]), ["C"], ptype, rx[3]), rx], 1
+    M = Model(species=SPECIES, reactions=rxs, parameters=params,
               initial_condition_dict={"A": 3, "B": 4, "C": 0})
     import libsbml
     if spec.get("via") == "file":
@@ -64,7 +67,7 @@ def replay(spec):
             if nm_ in mp and float(p_.getValue()) != float(mp[nm_]):
                 bad.append("parameter %s is exported as %r, the model has %r" % (p_.getId(), p_.getValue(), float(mp[nm_])))
         return {"reproduced": bool(bad), "observed": bad[:3], "expected": "the model's parameter values"}
-    law = sm.getReaction(0).getKineticLaw().getMath()
+    law = sm.getReaction(ri).getKineticLaw().getMath()
     text = libsbml.formulaToL3String(law)
     env = {}
     v = unfrac(spec.get("values", {}))
@@ -73,7 +76,7 @@ def replay(spec):
     for p in sm.getListOfParameters():
         env[p.getId()] = p.getValue()
     pv = np.array(M.get_parameter_values(), dtype=float)
-    prop = M.get_propensities()[0]
+    prop = M.get_propensities()[ri]
     bad = False
     # the counterexample's state first, then a few ordinary states (the rate constant is small: compare relatively)
     for state in [state, dict(zip(SPECIES, (3.0, 4.0, 1.0))), dict(zip(SPECIES, (1.0, 1.0, 0.0))), dict(zip(SPECIES, (7.0, 2.0, 5.0)))]:
@@ -87,7 +90,7 @@ def replay(spec):
         bad = not (abs(got - want) <= 1e-9 * max(abs(got), abs(want)) + 1e-300)
         if bad:
             break
-    r = sm.getReaction(0)
+    r = sm.getReaction(ri)
     st_ok = {x.getSpecies(): x.getStoichiometry() for x in r.getListOfReactants()} == {s: sp["reactants"].count(s) for s in set(sp["reactants"])} \
         and {x.getSpecies(): x.getStoichiometry() for x in r.getListOfProducts()} == {s: sp["products"].count(s) for s in set(sp["products"])}
     return {"reproduced": bool(bad or not st_ok), "observed": "law '%s' = %r at %s; stoichiometry ok=%s" % (text, got, state, st_ok),
